@@ -163,7 +163,9 @@ func c15Matrix(rep *Report, m *model.Client, cfg engine.Config, prefix []engine.
 	stateBefore := func() stateDigest { return digest(e) }
 
 	// ---- Tx matrix
-	for _, st := range []string{"rw", "ro", "done-rw", "done-ro"} {
+	// (finished read transactions first: a second finish that unlocked again would be a fatal runtime error for a
+	// write transaction, but silently corrupts the reader count for a read transaction - the lock state is compared)
+	for _, st := range []string{"rw", "ro", "done-ro", "done-rw"} {
 		for _, meth := range []string{"commit", "rollback", "close", "alloc", "allocn", "flush", "checkpoint", "page", "page-oob", "page-oob-end", "page-oob-hdr", "page-freed", "rootpage"} {
 			before := stateBefore()
 			tx := makeTx(f, st, r)
@@ -214,6 +216,12 @@ func c15Matrix(rep *Report, m *model.Client, cfg engine.Config, prefix []engine.
 			check("tx", st, meth, impl)
 			// clean up: an active transaction is discarded
 			guarded(func() error { return tx.Close() })
+			if sh, pend, resv := txfile.VerifLockState(f); sh != 0 || pend || resv {
+				rep.violate(Violation{Kind: "oracle", Sig: "misuse-changes-state/lock/" + st + "/" + meth,
+					Detail: fmt.Sprintf("tx %s in state %s returned %s; after closing the transaction the file lock is not idle: %s", meth, st, impl, lkString(sh, pend, resv)),
+					Replay: c15Replay{Config: cfg, Prefix: prefix, Object: "tx", State: st, Method: meth, Impl: impl}})
+				return
+			}
 			if impl != "ok" {
 				if d := diffDigest(stateBefore(), before); d != "" {
 					rep.violate(Violation{Kind: "oracle", Sig: "misuse-changes-state/tx/" + st + "/" + meth,
